@@ -137,7 +137,7 @@ theorem resolve_ztop7 (ast : Block) (hs : S7Top ast) (r : RBlock) (h : resolvePr
     compiling and running it (collections at every return) agrees with the definitional semantics, or stops at the
     machine's stack/frame limit -/
 theorem program7_syntactic (ast : Block) (r : RBlock) (bc : Bytecode) (hc : compileProgram ast = .ok (r, bc)) (hin : S7Top ast) (F : Nat) :
-    (∃ n s', ∀ k, runSteps bc.code (n + k) (VM.start {} bc) = .error .index s') ∨
+    HitsLimit bc ∨
     match evalB F r {} with
     | .val () st' => ∃ mv n s', (∀ k, runSteps bc.code (n + k) (VM.start {} bc) = .value mv s') ∧
         s'.mem.heap.tree treeDepth [] mv = st'.tree treeDepth [] st'.last ∧ s'.out = st'.out ∧
@@ -379,7 +379,7 @@ theorem src7Top_sound : (b : Block) → src7Top b = true → S7Top b
     its stack/frame limit -/
 theorem eval_text7_checked (cc : CharClass) (src : Text) (ast : Block) (r : RBlock) (bc : Bytecode) (hp : parse cc src = .ok ast)
     (hs : src7Top ast = true) (hc : compileProgram ast = .ok (r, bc)) (F : Nat) :
-    (∃ n out, ∀ k, evalText cc (n + k) src = .error .index out) ∨
+    TextHitsLimit cc src ∨
     match specText cc F src with
     | .value t out => ∃ n, ∀ k, evalText cc (n + k) src = .value t out
     | .error e out => ∃ n, ∀ k, evalText cc (n + k) src = .error e out
@@ -395,11 +395,8 @@ theorem eval_text7_checked (cc : CharClass) (src : Text) (ast : Block) (r : RBlo
       cases hcr : compileR r' with
       | error e => simp [hcr] at hc
       | ok bc' => simp only [hcr] at hc; injection hc with hc; injection hc with h1 h2; rw [h1]
-  rcases hsim with ⟨n, s', hn⟩ | hsim
-  · left
-    refine ⟨n, s'.out, fun k => ?_⟩
-    simp only [evalText, hp, hc, VM.run, hn k]
-    rfl
+  rcases hsim with hlim | hsim
+  · exact .inl (TextHitsLimit.of hp hc hlim)
   right
   simp only [specText, hp, hres, Spec.evalProgram]
   cases hr : evalB F r {} with
